@@ -199,75 +199,379 @@ def _refract_case(run, db, f, mk, side, sg):
 def frame_rules(run, db):
     fl, fg, ft = db.func(SM + 'transform_to_local_coords'), db.func(SM + 'transform_to_global_coords'), db.func(SM + 'raytrace')
 
-    def seq(fi):
-        """order of the translation and rotation applied to the position, and whether S is translated."""
-        info = {}
-        stmts = sorted([n for n in walk_no_nested(fi.node) if isinstance(n, ast.Assign)], key=lambda s: s.lineno)
-        ops = []
-        for st in stmts:
-            t = ast.unparse(st.targets[0])
-            v = ast.unparse(st.value).replace(' ', '')
-            if t.startswith('XYZ') and ('-P' in v or '+P' in v) and 'matmul' not in v:
-                ops.append(('translate', '-' if '-P' in v else '+', st))
-            if t.startswith('XYZ') and 'np.matmul(R,' in v:
-                ops.append(('rotate', 'R', st))
-            if t == 'S' and 'np.matmul(R,S' in v:
-                info['S_rot'] = st
-            if t == 'S' and ('P' in [n.id for n in ast.walk(st.value) if isinstance(n, ast.Name)]):
-                info['S_trans'] = st
-        info['ops'] = ops
-        return info
-    il, ig = seq(fl), seq(fg)
-    run.check([o[:2] for o in il['ops']] == [('translate', '-'), ('rotate', 'R')] and 'S_rot' in il and 'S_trans' not in il, 'C19.rigid', fl.qual, 'local transform',
-              'local = R (X - P); directions are rotated, not translated', 'transform_to_local_coords is not R(X - P) with S -> R S: %s' % [o[:2] for o in il['ops']], fl.loc())
-    run.check([o[:2] for o in ig['ops']] == [('rotate', 'R'), ('translate', '+')] and 'S_rot' in ig and 'S_trans' not in ig, 'C19.rigid', fg.qual, 'global transform',
-              'global = R X + P; directions are rotated, not translated', 'transform_to_global_coords is not R X + P with S -> R S: %s' % [o[:2] for o in ig['ops']], fg.loc())
-    # both rotate position and direction with the same matrix inside the same guard
-    for fi in (fl, fg):
-        guards = [n for n in walk_no_nested(fi.node) if isinstance(n, ast.If) and ast.unparse(n.test).replace(' ', '') == 'RisnotNone']
-        okg = len(guards) == 1 and sum('np.matmul(R,' in ast.unparse(st).replace(' ', '') for st in guards[0].body) == 2
-        run.check(okg, 'C19.rigid', fi.qual, 'rotation guard', 'position and direction are rotated together when R is given', 'position and direction are not rotated under the same condition', fi.loc())
-    # raytrace: R into local, R^T into global, same P
-    calls = {ast.unparse(n.func): n for n in walk_no_nested(ft.node) if isinstance(n, ast.Call) and ast.unparse(n.func).startswith('transform_to_')}
-    if calls.get('transform_to_local_coords') is None or calls.get('transform_to_global_coords') is None:
-        raise AnalysisError('raytrace: frame transforms not found')
-    # one consistent binding of the loop's local names (metavariables V_*): in with (surf.P, surf.R), intersect, out with (surf.P, R^T)
-    b = match_all(ft.node, ['(V_P0, V_S) = transform_to_local_coords(V_P, V_surf.P, V_S, V_surf.R)',
-                            '(V_P, V_r) = intersect(V_P0, V_S, V_surf.sag_normal)',
-                            '(V_Pn, V_Sn) = transform_to_global_coords(V_P, V_surf.P, V_Sn, V_Rt)'])
-    rt_vals = []
-    if b:
-        rt_vals = sorted(ast.unparse(n.value).replace(' ', '').replace(b['V_surf'], 'SURF') for n in walk_no_nested(ft.node)
-                         if isinstance(n, ast.Assign) and isinstance(n.targets[0], ast.Name) and n.targets[0].id == b['V_Rt'])
-    run.check(b is not None and rt_vals == ['None', 'SURF.R.T'], 'C19.rigid', ft.qual, 'inverse pair',
-              'into the surface frame with (P, R), back with (P, R^T), the intersection point and the new direction carried back: an exact rigid motion and its inverse',
-              'raytrace does not go into the surface frame with (surf.P, surf.R), intersect there, and come back with (surf.P, surf.R.T) applied to the intersection point and the new direction (R^T values: %s)' % rt_vals, ft.loc())
-    # dispatch on the surface type
-    ok = False
-    if b:
-        env = {k: v for k, v in b.items() if k != '@nodes'}
-        b2 = match_all(ft.node, ['V_Sn = reflect(V_S, V_r)', 'V_np = V_surf.n(wvl)', 'V_Sn = refract(V_nj, V_np, V_S, V_r)', 'V_nj = V_np'], env=env)
-        if b2:
-            refl = [n for n in walk_no_nested(ft.node) if isinstance(n, ast.If) and ast.unparse(n.test).replace(' ', '') == '%s.typ==STYPE_REFLECT' % b['V_surf']]
-            ok = len(refl) == 1 and len(refl[0].body) == 1 and ast.unparse(refl[0].body[0]).replace(' ', '') == '%s=reflect(%s,%s)' % (b2['V_Sn'], b2['V_S'], b2['V_r'])
-    run.check(ok, 'C19.rigid', ft.qual, 'interaction', 'reflect(S, r) / refract(n_j, n(wvl), S, r) with the index carried to the next surface', 'surface interaction wiring changed', ft.loc())
+    # decided by interpreting both transforms in NORM, with the rotation R applied to a vector an uninterpreted function mm(R, v):
+    # local = mm(R, X - P), global = mm(R, X) + P, directions mm(R, S) and never translated; without R only the translation
+    from .common import norm_interp as _ni2, returns as _ret2
+    from ..core.interp import Slice as _Sl2
+    for fi, sign, label in ((fl, -1, 'local'), (fg, +1, 'global')):
+        for with_R in (True, False):
+            itf, domf = _ni2(db)
+            oe, osub, om = domf.call_ext, domf.subscript, domf.method
+
+            def call_ext(dotted, args, kwargs, node, domf=domf, oe=oe):
+                last = dotted.rsplit('.', 1)[-1]
+                if last == 'atleast_2d' and args and all(domf.rat(a) is not None for a in args):
+                    return Tup(list(args)) if len(args) > 1 else args[0]
+                if last in ('matmul', 'dot') and len(args) == 2 and all(domf.rat(a) is not None for a in args):
+                    return domf.func_atom('mm', list(args))
+                if last == 'einsum':
+                    return Unknown('einsum')
+                return oe(dotted, args, kwargs, node)
+
+            def subscript(v, idx, node, domf=domf, osub=osub):
+                items = idx.items if isinstance(idx, Tup) else [idx]
+                if domf.rat(v) is not None and all(isinstance(x, _Sl2) or (isinstance(x, Const) and (x.v is None or x.v is Ellipsis)) for x in items):
+                    return v                      # [..., np.newaxis] only adds an axis
+                return osub(v, idx, node)
+
+            def method(v, name, args, kwargs, node, domf=domf, om=om):
+                if name in ('squeeze', 'copy') and domf.rat(v) is not None:
+                    return v
+                return om(v, name, args, kwargs, node)
+            ob = domf.binop
+
+            def binop(op, a, b, node, domf=domf, ob=ob):
+                if isinstance(op, ast.MatMult) and domf.rat(a) is not None and domf.rat(b) is not None:
+                    return domf.func_atom('mm', [a, b])
+                return ob(op, a, b, node)
+            domf.call_ext, domf.subscript, domf.method, domf.binop = call_ext, subscript, method, binop
+            res = _ret2(itf.run(fi, kwargs=lambda: {'XYZ': domf.sym('X'), 'P': domf.sym('P'), 'S': domf.sym('S'), 'R': domf.sym('R') if with_R else Const(None)}), fi)
+            Rf = domf.R
+            Af = lambda nme: Rat(Rf.atom(nme))
+            mm = lambda v_: Rat(Rf.func('mm', [Af('R'), v_]))
+            if with_R:
+                wantX = mm(Af('X') - Af('P')) if sign < 0 else mm(Af('X')) + Af('P')
+                wantS = mm(Af('S'))
+            else:
+                wantX = Af('X') + sign * Af('P')
+                wantS = Af('S')
+            ok = bool(res)
+            got = []
+            for p_ in res:
+                v_ = p_.value
+                gx = domf.rat(v_.items[0]) if isinstance(v_, Tup) and len(v_.items) == 2 else None
+                gs = domf.rat(v_.items[1]) if isinstance(v_, Tup) and len(v_.items) == 2 else None
+                got.append((gx.key() if gx is not None else '?', gs.key() if gs is not None else '?'))
+                ok = ok and gx is not None and gs is not None and gx == wantX and gs == wantS
+            run.check(ok, 'C19.rigid', fi.qual, '%s transform%s' % (label, '' if with_R else ' (no rotation)'),
+                      ('local = R (X - P)' if sign < 0 else 'global = R X + P') + '; directions are rotated, not translated' + ('' if with_R else ' [R is None: translation only]'),
+                      'transform_to_%s_coords returns %s, expected (%s, %s)' % (label, got, wantX.key(), wantS.key()), fi.loc())
+    # raytrace, by interpretation on a list of two surfaces (a mirror then a lens surface, then the other order) with the four
+    # stages summarised: into the surface frame with (surf.P, surf.R), intersect there with surf.sag_normal, bend with reflect /
+    # refract(running index, surf.n(wvl)), back with (surf.P, surf.R^T); the running index is carried from surface to surface
+    from .common import capture_calls as _cc2, norm_interp as _ni3
+    from ..core.interp import Value as _V3, Obj as _O3
+    mod_ = ft.module
+    itr, domr = _ni3(db)
+    it_c = itr
+    it_c._reset_run([])
+    from ..core.interp import Frame as _F3
+    consts = {nm: it_c.ev(mod_.assigns[nm], _F3(None, mod_, {})) for nm in ('STYPE_REFLECT', 'STYPE_REFRACT') if nm in mod_.assigns}
+    if len(consts) != 2:
+        consts = {nm: itr.lookup_global(nm, mod_) for nm in ('STYPE_REFLECT', 'STYPE_REFRACT')}
+
+    class SurfV(_V3):
+        def __init__(self, k, typ, has_R=True):
+            self.k, self.typ, self.has_R = k, typ, has_R
+
+        def __repr__(self):
+            return 'Surf%d' % self.k
+
+    class BoundN(_V3):
+        def __init__(self, k):
+            self.k = k
+    for order in (('REFLECT', 'REFRACT'), ('REFRACT', 'REFLECT'), ('REFRACT', 'REFRACT'), ('REFRACT', 'REFLECT', 'REFRACT'), ('REFLECT', 'REFLECT*')):
+        untilted = [t_.endswith('*') for t_ in order]          # a trailing * marks a surface without a rotation matrix
+        order = tuple(t_.rstrip('*') for t_ in order)
+        itr, domr = _ni3(db)
+        oga, oe, ost = domr.getattr, domr.call_ext, domr.store_subscript
+
+        def getattr_(v, name, node, domr=domr, oga=oga):
+            if isinstance(v, SurfV):
+                if name == 'typ':
+                    return consts['STYPE_' + v.typ]
+                if name == 'R' and not v.has_R:
+                    return Const(None)
+                if name in ('P', 'R'):
+                    return domr.sym('%s%d' % (name, v.k))
+                if name == 'sag_normal':
+                    return domr.sym('FFP%d' % v.k)
+                if name == 'n':
+                    return BoundN(v.k)
+                return Unknown('surface attribute %s' % name)
+            if name == 'T' and domr.rat(v) is not None:
+                return domr.func_atom('transpose', [v])
+            if name in ('shape',) and domr.rat(v) is not None:
+                return Tup([domr.sym('nrays'), Const(3)])
+            if name == 'dtype' and domr.rat(v) is not None:
+                return domr.sym('dtype')
+            return oga(v, name, node)
+
+        def call_ext(dotted, args, kwargs, node, domr=domr, oe=oe):
+            last = dotted.rsplit('.', 1)[-1]
+            if last in ('asarray', 'array') and args and domr.rat(args[0]) is not None:
+                return args[0]
+            if last in ('empty', 'zeros', 'empty_like'):
+                return domr.sym('HIST')
+            return oe(dotted, args, kwargs, node)
+
+        def store_subscript(target, idx, val, node, domr=domr, ost=ost):
+            if domr.rat(target) is not None:
+                return True
+            return ost(target, idx, val, node)
+
+        def call_object(fobj, args, kwargs, node, domr=domr):
+            if isinstance(fobj, BoundN):
+                return domr.sym('N%d' % fobj.k)
+            return None
+        domr.getattr, domr.call_ext, domr.store_subscript, domr.call_object = getattr_, call_ext, store_subscript, call_object
+        stage = {SM + 'transform_to_local_coords': 'local', SM + 'intersect': 'hit', SM + 'reflect': 'reflect', SM + 'refract': 'refract', SM + 'transform_to_global_coords': 'global'}
+        counter = {'n': 0}
+
+        def result(fi_, b_, domr=domr, counter=counter):
+            counter['n'] += 1
+            k = counter['n']
+            kind = stage[fi_.qual]
+            if kind in ('local', 'global'):
+                return Tup([domr.sym('%s_P_%d' % (kind, k)), domr.sym('%s_S_%d' % (kind, k))])
+            if kind == 'hit':
+                return Tup([domr.sym('hit_P_%d' % k), domr.sym('hit_r_%d' % k)])
+            return domr.sym('%s_%d' % (kind, k))
+        paths, calls = _cc2(itr, domr, ft, lambda: {'surfaces': Tup([SurfV(k_, t_, not untilted[k_]) for k_, t_ in enumerate(order)], 'list'), 'P': domr.sym('Pin'), 'S': domr.sym('Sin'), 'wvl': domr.sym('wvl'),
+                                                    'n_ambient': domr.sym('NAMB')}, set(stage), result)
+        keyr = lambda v_: domr.rat(v_).key() if v_ is not None and domr.rat(v_) is not None else repr(v_)
+        seq = [(stage[c_[0].qual], {k: keyr(v) for k, v in c_[1].items()}) for c_ in calls]
+        want_kinds = []
+        for t_ in order:
+            want_kinds += ['local', 'hit', t_.lower(), 'global']
+        ok = [k for k, _ in seq] == want_kinds
+        detail = str([k for k, _ in seq])
+        if ok:
+            nprev = 'NAMB'
+            Pcur, Scur = 'Pin', 'Sin'
+            pos = 0
+            for k_, t_ in enumerate(order):
+                loc, hit, bend, glo = seq[pos:pos + 4]
+                pos += 4
+                nL, nH, nB = pos - 3, pos - 2, pos - 1
+                wantR, wantRt = ('R%d' % k_, 'transpose(R%d)' % k_) if not untilted[k_] else ('Const(None)', 'Const(None)')
+                okk = loc[1].get('XYZ') == Pcur and loc[1].get('P') == 'P%d' % k_ and loc[1].get('S') == Scur and loc[1].get('R') == wantR
+                okk = okk and hit[1].get('P0') == 'local_P_%d' % nL and hit[1].get('S') == 'local_S_%d' % nL and hit[1].get('FFp') == 'FFP%d' % k_
+                if t_ == 'REFLECT':
+                    okk = okk and bend[1].get('S') == 'local_S_%d' % nL and bend[1].get('r') == 'hit_r_%d' % nH
+                else:
+                    okk = okk and bend[1].get('n') == nprev and bend[1].get('nprime') == 'N%d' % k_ and bend[1].get('S') == 'local_S_%d' % nL and bend[1].get('r') == 'hit_r_%d' % nH
+                    nprev = 'N%d' % k_
+                okk = okk and glo[1].get('XYZ') == 'hit_P_%d' % nH and glo[1].get('P') == 'P%d' % k_ and glo[1].get('S') == '%s_%d' % (t_.lower(), nB) and glo[1].get('R') == wantRt
+                if not okk:
+                    ok = False
+                    detail = 'surface %d (%s): %s' % (k_, t_.lower(), [loc, hit, bend, glo])
+                    break
+                Pcur, Scur = 'global_P_%d' % pos, 'global_S_%d' % pos
+        run.check(ok, 'C19.rigid', ft.qual, 'stages (%s)' % ' then '.join(o_.lower() for o_ in order),
+                  'per surface: into the surface frame with (P, R), intersect there, reflect / refract(running index, n(wvl)), back with (P, R^T) applied to the intersection point and the new direction; '
+                  'positions, directions and the running index are handed from surface to surface',
+                  'raytrace stage wiring is not an exact rigid motion, its inverse and the documented interaction: %s' % detail, ft.loc())
+    # without a rotation matrix the surface frame differs by a translation only: None goes in, None comes back
+    itr, domr = _ni3(db)
+    oga = domr.getattr
+
+    def getattr_n(v, name, node, domr=domr, oga=oga):
+        if isinstance(v, SurfV):
+            return {'typ': consts['STYPE_REFLECT'], 'P': domr.sym('P0'), 'R': Const(None), 'sag_normal': domr.sym('FFP0')}.get(name, Unknown('attr'))
+        if name == 'shape' and domr.rat(v) is not None:
+            return Tup([domr.sym('nrays'), Const(3)])
+        if name == 'dtype' and domr.rat(v) is not None:
+            return domr.sym('dtype')
+        return oga(v, name, node)
+    oe_n, ost_n = domr.call_ext, domr.store_subscript
+    domr.getattr = getattr_n
+    domr.call_ext = lambda dotted, args, kwargs, node, domr=domr, oe_n=oe_n: (args[0] if dotted.rsplit('.', 1)[-1] in ('asarray', 'array') and args and domr.rat(args[0]) is not None
+                                                                              else domr.sym('HIST') if dotted.rsplit('.', 1)[-1] in ('empty', 'zeros', 'empty_like') else oe_n(dotted, args, kwargs, node))
+    domr.store_subscript = lambda target, idx, val, node, domr=domr, ost_n=ost_n: True if domr.rat(target) is not None else ost_n(target, idx, val, node)
+    cnt = {'n': 0}
+
+    def result_n(fi_, b_, domr=domr, cnt=cnt):
+        cnt['n'] += 1
+        return Tup([domr.sym('a%d' % cnt['n']), domr.sym('b%d' % cnt['n'])]) if stage[fi_.qual] in ('local', 'global', 'hit') else domr.sym('c%d' % cnt['n'])
+    paths, calls = _cc2(itr, domr, ft, lambda: {'surfaces': Tup([SurfV(0, 'REFLECT')], 'list'), 'P': domr.sym('Pin'), 'S': domr.sym('Sin'), 'wvl': domr.sym('wvl'), 'n_ambient': domr.sym('NAMB')}, set(stage), result_n)
+    rts = [c_[1].get('R') for c_ in calls if stage[c_[0].qual] in ('local', 'global')]
+    run.check(len(rts) == 2 and all(isinstance(r_, Const) and r_.v is None for r_ in rts), 'C19.rigid', ft.qual, 'no rotation', 'a surface without a rotation matrix is entered and left by translation only',
+              'for a surface with R = None raytrace passes %r as rotation to the frame transforms' % (rts,), ft.loc())
 
 
 def normal_rules(run, db):
     # sag_normal: gradient of F = z - sag(x, y)
+    # decided by interpreting the method with self.FFp a stub returning (sag, dz/dx, dz/dy): the result is (sag, stack([-Fx, -Fy, 1], axis=1))
+    from .common import norm_interp as _ni0, returns as _ret0
+    from ..core.interp import Value as _Value0, Obj as _Obj0
     f = db.func(SF + 'Surface.sag_normal')
-    b = match_all(f.node, ['(V_z, V_Fx, V_Fy) = self.FFp(x, y)', 'V_Fz = np.broadcast_to(V_Fz, V_Fx.shape)', 'V_der = np.stack([-V_Fx, -V_Fy, V_Fz], axis=1)', 'return (V_z, V_der)'])
-    ones = [n for n in walk_no_nested(f.node) if b and isinstance(n, ast.Assign) and isinstance(n.targets[0], ast.Name) and n.targets[0].id == b['V_Fz'] and 'np.array([1.0]' in ast.unparse(n.value)]
-    ok = b is not None and len(ones) == 1
-    run.check(ok, 'C19.normal', f.qual, 'gradient', 'normal direction is (-dz/dx, -dz/dy, 1), the gradient of z - sag(x, y)', 'sag_normal no longer returns (-Fx, -Fy, 1)', f.loc())
-    # Newton step uses F = Z - sag and F' = S . r
+    it0, dom0 = _ni0(db)
+
+    class FStub(_Value0):
+        pass
+    oe0 = dom0.call_ext
+    ffp_args = []
+
+    def call_ext0(dotted, args, kwargs, node):
+        last = dotted.rsplit('.', 1)[-1]
+        if last in ('array', 'asarray') and args and isinstance(args[0], Tup) and len(args[0].items) == 1 and dom0.rat(args[0].items[0]) is not None:
+            return args[0].items[0]              # a one-element array that is broadcast: its value
+        if last == 'broadcast_to' and args and dom0.rat(args[0]) is not None:
+            return args[0]
+        if last in ('ones', 'ones_like'):
+            return Const(1)
+        if last == 'stack' and args and isinstance(args[0], Tup):
+            ax = kwargs.get('axis', args[1] if len(args) > 1 else Const(0))
+            return Tup(list(args[0].items) + [ax], 'stack')
+        return oe0(dotted, args, kwargs, node)
+
+    def call_object0(fobj, args, kwargs, node):
+        if isinstance(fobj, FStub):
+            ffp_args.append(list(args))
+            return Tup([dom0.sym('SAG'), dom0.sym('FX'), dom0.sym('FY')])
+        return None
+    dom0.call_ext, dom0.call_object = call_ext0, call_object0
+    ci0 = db.cls(SF + 'Surface')
+
+    def mkself0():
+        o = _Obj0(ci0)
+        o.attrs['FFp'] = FStub()
+        return o
+    res0 = _ret0(it0.run(f, kwargs=lambda: {'x': dom0.sym('x'), 'y': dom0.sym('y')}, self_obj=mkself0), f)
+    ok = len(res0) == 1 and isinstance(res0[0].value, Tup) and len(res0[0].value.items) == 2
+    detail = ''
+    if ok:
+        z0, der = res0[0].value.items
+        R0 = dom0.R
+        A0 = lambda nme: Rat(R0.atom(nme))
+        ok = dom0.rat(z0) is not None and dom0.rat(z0) == A0('SAG') and isinstance(der, Tup) and der.kind == 'stack' and len(der.items) == 4 \
+            and isinstance(der.items[3], Const) and der.items[3].v == 1
+        if ok:
+            comps = [dom0.rat(c_) for c_ in der.items[:3]]
+            ok = all(c_ is not None for c_ in comps) and comps[0] == -A0('FX') and comps[1] == -A0('FY') and comps[2] == Rat(R0.const(1))
+            detail = str([c_.key() if c_ is not None else '?' for c_ in comps])
+        ok = ok and ffp_args and [dom0.rat(a).key() if dom0.rat(a) is not None else '?' for a in ffp_args[0]] == ['x', 'y']
+    run.check(ok, 'C19.normal', f.qual, 'gradient', 'normal direction is (-dz/dx, -dz/dy, 1), the gradient of z - sag(x, y), stacked per ray', 'sag_normal no longer returns (sag, (-Fx, -Fy, 1)): %s' % detail, f.loc())
+    # Newton step: decided by interpreting the solver for ONE iteration (maxiter = 1) in NORM, with the surface function a stub
+    # that records where it is evaluated: the point is P1 + s S, F = Z - sag, F' = S . grad F, and s <- s - F/F' is what is stored
+    from .common import norm_interp as _ni, returns as _ret
+    from ..core.interp import Value as _Value, Slice as _Sl
     fn = db.func(SM + 'newton_raphson_solve_s')
-    ok = match_all(fn.node, ['V_sm = V_sj[V_mask]', 'V_sb = V_sm[:, np.newaxis]', 'V_Sm = S[V_mask]', 'V_P = P1[V_mask] + V_sb * V_Sm', 'V_Z = V_P[..., 2]', '(V_sag, V_r) = FFp(V_X, V_Y)',
-                             'V_F = V_Z - V_sag', 'V_Fp = _multi_dot(V_Sm, V_r)', 'V_s1 = V_sm - V_F / V_Fp', 'V_sj[V_mask] = V_s1']) is not None
-    run.check(ok, 'C19.normal', fn.qual, 'newton step', "s <- s - F/F' with F = Z - sag, F' = S . grad F, P = P1 + s S", 'Newton-Raphson step changed', fn.loc())
+    itn, domn = _ni(db)
+
+    class FFpStub(_Value):
+        pass
+    ffp_calls, s_stores = [], []
+    oe, om, oga, osub, ost, opr = domn.call_ext, domn.method, domn.getattr, domn.subscript, domn.store_subscript, domn.call_prysm
+    nout = [0]
+
+    def call_ext(dotted, args, kwargs, node):
+        last = dotted.rsplit('.', 1)[-1]
+        a0 = args[0] if args else None
+        if last in ('atleast_1d', 'broadcast_to', 'asarray', 'ascontiguousarray', 'array') and a0 is not None and domn.rat(a0) is not None:
+            return a0
+        if last == 'arange':
+            return domn.sym('ALLRAYS')
+        if last in ('empty', 'empty_like', 'zeros', 'zeros_like'):
+            nout[0] += 1
+            return domn.sym('OUT%d' % nout[0])
+        if last in ('abs', 'absolute') and a0 is not None and domn.rat(a0) is not None:
+            return domn.func_atom('abs', [a0])
+        if last in ('finfo',):
+            return Unknown('finfo')
+        return oe(dotted, args, kwargs, node)
+
+    def method(v, name, args, kwargs, node):
+        if name in ('copy', 'astype') and domn.rat(v) is not None:
+            return v
+        return om(v, name, args, kwargs, node)
+
+    def getattr_(v, name, node):
+        if name == 'shape' and domn.rat(v) is not None:
+            return Tup([domn.sym('nrays'), Const(3)])
+        if name == 'dtype' and domn.rat(v) is not None:
+            return domn.sym('dtype')
+        return oga(v, name, node)
+
+    def subscript(v, idx, node):
+        r_ = domn.rat(v)
+        if r_ is not None:
+            if domn.rat(idx) is not None and domn.rat(idx).key() == 'ALLRAYS':
+                return v                       # all rays are still active in the first iteration
+            items = idx.items if isinstance(idx, Tup) else None
+            if items is not None and all(isinstance(x, _Sl) or (isinstance(x, Const) and x.v is None) for x in items):
+                return v                       # [:, np.newaxis]
+            if items is not None and len(items) == 2 and isinstance(items[0], Const) and items[0].v is Ellipsis and isinstance(items[1], Const) and isinstance(items[1].v, int):
+                return domn.func_atom('comp%d' % items[1].v, [v])
+            if items is not None and len(items) == 2 and isinstance(items[0], _Sl) and isinstance(items[1], Const) and isinstance(items[1].v, int):
+                return domn.func_atom('comp%d' % items[1].v, [v])
+            return Unknown('subset of rays')
+        return osub(v, idx, node)
+
+    def store_subscript(target, idx, val, node):
+        r_ = domn.rat(target)
+        if r_ is not None:
+            if r_.key() == 's1' and domn.rat(idx) is not None and domn.rat(idx).key() == 'ALLRAYS':
+                s_stores.append((domn.rat(val), node))
+            return True
+        return ost(target, idx, val, node)
+
+    def call_prysm(fi_, args, kwargs, node):
+        if fi_.name == '_multi_dot' and len(args) == 2 and all(domn.rat(a) is not None for a in args):
+            return domn.func_atom('dot', sorted(args, key=lambda a: domn.rat(a).key()))
+        return opr(fi_, args, kwargs, node) if opr else None
+
+    def call_object(fobj, args, kwargs, node):
+        if isinstance(fobj, FFpStub):
+            ffp_calls.append(list(args))
+            return Tup([domn.sym('SAG'), domn.sym('GRAD')])
+        return None
+    domn.call_ext, domn.method, domn.getattr, domn.subscript, domn.store_subscript, domn.call_prysm, domn.call_object = call_ext, method, getattr_, subscript, store_subscript, call_prysm, call_object
+    list(itn.run(fn, kwargs=lambda: {'P1': domn.sym('P1'), 'S': domn.sym('S'), 'FFp': FFpStub(), 's1': domn.sym('s1'), 'eps': domn.sym('eps'), 'maxiter': Const(1)}))
+    Rn = domn.R
+    An = lambda nme: Rat(Rn.atom(nme))
+    Pn = An('P1') + An('s1') * An('S')
+    comp = lambda k: Rat(Rn.func('comp%d' % k, [Pn]))
+    dotSG = Rat(Rn.func('dot', sorted([An('S'), An('GRAD')], key=lambda a: a.key())))
+    want_s = An('s1') - (comp(2) - An('SAG')) / dotSG
+    okp = bool(ffp_calls) and all(len(a) == 2 and domn.rat(a[0]) is not None and domn.rat(a[1]) is not None and domn.rat(a[0]) == comp(0) and domn.rat(a[1]) == comp(1) for a in ffp_calls)
+    oks = bool(s_stores) and all(v_ is not None and v_ == want_s for v_, _ in s_stores)
+    run.check(okp and oks, 'C19.normal', fn.qual, 'newton step', "s <- s - F/F' with F = Z - sag, F' = S . grad F, P = P1 + s S",
+              'Newton-Raphson step changed: the surface is evaluated at %s and the ray length becomes %s (expected (x, y) of P1 + s S and s - (z - sag)/(S . grad F))'
+              % ([[domn.rat(x).key() if domn.rat(x) is not None else repr(x) for x in a] for a in ffp_calls[:1]], [v_.key() if v_ is not None else '?' for v_, _ in s_stores[:1]]), fn.loc())
+    # first guess: what intersect hands to the solver, by interpretation (same array algebra as above)
+    from .common import capture_calls as _cc
     fi = db.func(SM + 'intersect')
-    okg = match_all(fi.node, ['V_Z0 = P0[..., 2]', 'V_m = S[..., 2]', 'V_s0 = -V_Z0 / V_m', 'V_P1 = P0 + V_s0[:, np.newaxis] * S', 'return newton_raphson_solve_s(V_P1, S, FFp, s1, eps, maxiter)']) is not None
-    run.check(okg, 'C19.normal', fi.qual, 'first guess', 'rays are first moved to the z = 0 plane of the surface frame', 'intersect first-guess changed', fi.loc())
+    iti, domi = _ni(db)
+    oe2, osub2 = domi.call_ext, domi.subscript
+
+    def call_ext2(dotted, args, kwargs, node):
+        last = dotted.rsplit('.', 1)[-1]
+        if last == 'atleast_2d' and args and all(domi.rat(a) is not None for a in args):
+            return Tup(list(args)) if len(args) > 1 else args[0]
+        return oe2(dotted, args, kwargs, node)
+
+    def subscript2(v, idx, node):
+        if domi.rat(v) is not None:
+            items = idx.items if isinstance(idx, Tup) else None
+            if items is not None and all(isinstance(x, _Sl) or (isinstance(x, Const) and x.v is None) for x in items):
+                return v
+            if items is not None and len(items) == 2 and ((isinstance(items[0], Const) and items[0].v is Ellipsis) or isinstance(items[0], _Sl)) and isinstance(items[1], Const) and isinstance(items[1].v, int):
+                return domi.func_atom('comp%d' % items[1].v, [v])
+        return osub2(v, idx, node)
+    domi.call_ext, domi.subscript = call_ext2, subscript2
+    paths, scalls = _cc(iti, domi, fi, lambda: {'P0': domi.sym('P0'), 'S': domi.sym('S'), 'FFp': domi.sym('FFP'), 's1': domi.sym('s1'), 'eps': domi.sym('eps'), 'maxiter': domi.sym('maxiter')},
+                        {SM + 'newton_raphson_solve_s'}, lambda f_, b_: Tup([domi.sym('PJ'), domi.sym('RJ')]))
+    Ri = domi.R
+    Ai = lambda nme: Rat(Ri.atom(nme))
+    c2 = lambda arr: Rat(Ri.func('comp2', [arr]))
+    want_P1 = Ai('P0') - c2(Ai('P0')) / c2(Ai('S')) * Ai('S')
+    keyi = lambda v_: domi.rat(v_).key() if v_ is not None and domi.rat(v_) is not None else repr(v_)
+    okg = len(scalls) == 1 and domi.rat(scalls[0][1].get('P1')) is not None and domi.rat(scalls[0][1]['P1']) == want_P1 and keyi(scalls[0][1].get('S')) == 'S' \
+        and keyi(scalls[0][1].get('FFp')) == 'FFP' and keyi(scalls[0][1].get('s1')) == 's1' and keyi(scalls[0][1].get('maxiter')) == 'maxiter'
+    run.check(okg, 'C19.normal', fi.qual, 'first guess', 'rays are first moved to the z = 0 plane of the surface frame: P1 = P0 - (z0/S_z) S, then solved from there',
+              'intersect hands %s to the solver (expected P1 = %s)' % ([{k: keyi(v) for k, v in c_[1].items()} for c_ in scalls], want_P1.key()), fi.loc())
     # no unguarded division by the radial coordinate on the normal path
     g = db.func(SF + 'surface_normal_from_cylindrical_derivatives')
     bad = []
@@ -516,7 +820,18 @@ def state_rules(run, db):
     carried = loop_carried(loops[0])
     bw = match_all(ft.node, ['(V_P0, V_S) = transform_to_local_coords(V_P, V_surf.P, V_S, V_surf.R)', 'V_Sn = refract(V_nj, V_np, V_S, V_r)'])
     if bw is None:
-        raise AnalysisError('raytrace: ray state (position, direction, index) not identified')
+        # the loop is not in the form this structural rule reads (stages moved to helpers): what flows from surface to surface is
+        # decided by the interpretation of raytrace on lists of surfaces (frame_rules: stages), including a mirror inside glass and
+        # an untilted surface after a tilted one
+        run.ok('C19.rigid', ft.qual, 'per-surface state: decided by interpretation of raytrace on surface lists (structural form not recognised)')
+        bw = None
+    if bw is not None:
+        _raytrace_state(run, ft, loops, carried, bw)
+    _newton_state(run, db)
+
+
+def _raytrace_state(run, ft, loops, carried, bw):
+    from .common import loop_carried
     allowed = {bw['V_P'], bw['V_S'], bw['V_nj']}
     NJ = bw['V_nj']
     extra = sorted(carried - allowed)
@@ -541,6 +856,10 @@ def state_rules(run, db):
     missing = sorted(allowed - carried)
     if missing:
         raise AnalysisError('raytrace: expected loop-carried state %s not found' % missing)
+
+
+def _newton_state(run, db):
+    from .common import loop_carried
     # Newton-Raphson: only the set of unconverged rays is carried; the convergence test is two-sided
     fn = db.func(SM + 'newton_raphson_solve_s')
     loops = [n for n in walk_no_nested(fn.node) if isinstance(n, ast.For) and 'maxiter' in ast.unparse(n.iter)]
